@@ -25,7 +25,8 @@ Record c04_case := mkCase {
   k_sched : list (nat * action);
   k_run : run_obs;                                  (* the uninterrupted run *)
   k_crashes : list (nat * files);                   (* directory after killing the process before event k *)
-  k_asyncs : list files                             (* directory after SIGKILL at an arbitrary instant *)
+  k_asyncs : list files;                            (* directory after SIGKILL at an arbitrary instant *)
+  k_kernel : option (list kcall)                    (* the kernel's view of the part file (strace), when sampled *)
 }.
 
 (* ---- equality on observations ---- *)
@@ -164,7 +165,16 @@ Definition holds (c : c04_case) : bool :=
            (match r_outcome r with OOk => true | _ => false end) &&
   power_ok c.
 
-Definition c04_verdict (c : c04_case) : verdict := (agree c, holds c, false).
+(* the sampled kernel-level view satisfies the Spec's kernel scan (not reproduced by the model: outside
+   the transfer theorem, evaluated on the observation only) *)
+Definition kernel_holds (c : c04_case) : bool :=
+  match k_kernel c with
+  | None => true
+  | Some cs => kernel_ok (N.of_nat (length (new_content (k_body c))))
+                         (match r_outcome (k_run c) with OOk => true | _ => false end) cs
+  end.
+
+Definition c04_verdict (c : c04_case) : verdict := (agree c, holds c && kernel_holds c, false).
 
 (* what the model computes, for replay files *)
 Definition show_files (c : c04_case) (s : fs) : files :=
